@@ -2,3 +2,6 @@ import Emboss.Properties.C08
 open Emboss.Lr1
 #print axioms C08_sound
 #print axioms C08_safe
+#print axioms C08_complete
+#print axioms C08_unambiguous
+#print axioms C08_terminates_partial
